@@ -123,6 +123,7 @@ class Real:
         self.file_ok = False
         self.txmod, self.util, self.ODB = _real()
         self.saved_chunk = self.ODB.chunk_size
+        self.changed_after_yield = 0
 
     def close(self):
         self.ODB.chunk_size = self.saved_chunk
@@ -148,6 +149,7 @@ class Real:
     def run_gen(self, chunk, reverse):
         """-> (list of (plain tx, hash bytes), error name or None)"""
         items, err = [], None
+        kept = []          # the very objects handed out: a consumer may hold them (list(block.iter_txs()))
         cwd = os.getcwd()
         os.chdir(self.scratch)
         try:
@@ -155,6 +157,16 @@ class Real:
                 gen = b.iter_txs_reversed() if reverse else b.iter_txs()
                 for tx, h in gen:
                     items.append((plain_tx(tx), bytes(h)))
+                    kept.append((tx, h))
+                # what was handed out must still be what it was when the generator has moved on
+                for i, (tx, h) in enumerate(kept):
+                    try:
+                        now = (plain_tx(tx), bytes(h))
+                    except Exception as e:      # pylint:disable=broad-except
+                        now = ('unreadable', exc_name(e))
+                    if now != items[i]:
+                        self.changed_after_yield += 1
+                        items[i] = now          # (the collected list is what the consumer has)
         except Exception as e:          # pylint:disable=broad-except
             err = exc_name(e)
         finally:
